@@ -376,6 +376,77 @@ let f x default =
 f (Box "hello") "world"
 "#),
             ("nested-ident-match", r#"let w = 7 in match w with | x -> match x with | y -> y"#),
+            ("gadt-nested-leak", r#"
+type T a = | I : Int -> T Int | S : String -> T String
+type U a = | U1 : U a
+let f u t x : forall a . U a -> T a -> a -> Int =
+    match u with
+    | U1 ->
+        match t with
+        | I _ -> 0
+        | _ -> x
+f U1 (S "") "hello"
+"#),
+            ("gadt-nested-ok", r#"
+type T a = | I : Int -> T Int | S : String -> T String
+type U a = | U1 : U a
+let f u t x : forall a . U a -> T a -> a -> Int =
+    match u with
+    | U1 ->
+        match t with
+        | I _ -> x
+        | _ -> 0
+f U1 (I 1) 5
+"#),
+            ("update-base-expected", r#"
+let f r : { y : Int } -> { x : Int } = { x = 1, .. r }
+10 #Int- (f { y = 5 }).x
+"#),
+            ("update-base-later", r#"
+let f r =
+    let z = { x = 1, .. r }
+    let _ = r.y
+    z
+10 #Int- (f { y = 5 }).x
+"#),
+            ("recpat-reordered", r#"
+match { x = 1, y = 2 } with
+| { x = 1, y = 3 } -> 10
+| { y = 2, x = 1 } -> 20
+| _ -> 30
+"#),
+            ("recpat-shorthand", r#"
+match { a = 2, c = 7 } with
+| { a = 1, c } -> c
+| { a = 2, c } -> c
+| _ -> 0
+"#),
+            ("rec-lambda", r#"
+rec let f = \x -> if x #Int== 0 then 0 else f (x #Int- 1)
+f 3
+"#),
+            ("rec-if", r#"
+type T = { a : Int, f : () -> Int }
+let c = 1 #Int< 2
+rec let x : T = if c then { a = 1, f = \_ -> x.a } else { a = 2, f = \_ -> x.a }
+10 #Int+ x.f ()
+"#),
+            ("rec-match", r#"
+type T = { a : Int, f : () -> Int }
+type B = | Yes | No
+let c = Yes
+rec let x : T =
+    match c with
+    | Yes -> { a = 1, f = \_ -> x.a }
+    | No -> { a = 2, f = \_ -> x.a }
+10 #Int+ x.f ()
+"#),
+            ("row-order", r#"
+let id_x r : forall r . { x : Int | r } -> { x : Int | r } = r
+let v = id_x { y = "a", x = 1 }
+let w : { x : Int, y : String } = v
+w.x
+"#),
         ];
         let mut bad = false;
         for (name, src) in progs.iter() {
@@ -384,6 +455,7 @@ f (Box "hello") "world"
             let r = std::panic::catch_unwind(std::panic::AssertUnwindSafe(|| vm.run_expr::<OpaqueValue<RootedThread, Hole>>(name, src).map(|x| format!("{:?}", x.0)).map_err(|e| e.to_string().lines().take(2).collect::<Vec<_>>().join(" | "))));
             println!("{}: type {:?}; run {:?}", name, t, r.as_ref().map_err(|_| "HOST PANIC"));
             if t.is_ok() && !matches!(r, Ok(Ok(_))) { bad = true; }
+            if (*name == "gadt-nested-leak" || *name == "row-order") && t.is_ok() { if let Ok(Ok(v)) = &r { if v.contains("hello") || v.contains("\"a\"") { bad = true; } } }
             if *name == "let-generalisation" && t.as_ref().map(|s| s == "Int").unwrap_or(false) { if let Ok(Ok(v)) = &r { if v.contains("hello") { bad = true; } } }
         }
         if bad { std::process::exit(13); }
